@@ -163,7 +163,7 @@ for _k, _found in {"C01": {**L0_FIELD_CORE, **L0_SCALAR}, "C02": {**L0_FIELD_COR
 _FL_CURVE = reg("Voi.Props.FL.Curve", "Voi.Props.FL.Models", "Voi.Props.FL.Encoding")
 _FL_FIELD = reg("Voi.Props.FL.Field", "Voi.Props.FL.Sqrt")
 _FL_BOUNDS = reg("Voi.Props.FL.Bounds", "Voi.FIR.Sound")
-for _k, _t in {"C03": {**_FL_CURVE, **_FL_BOUNDS}, "C04": {**_FL_FIELD, **_FL_BOUNDS}, "C06": _FL_BOUNDS, "C07": {**_FL_FIELD, **_FL_BOUNDS},
+for _k, _t in {"C03": {**_FL_CURVE, **_FL_BOUNDS}, "C04": {**_FL_FIELD, **_FL_BOUNDS}, "C06": _FL_BOUNDS, "C07": {**_FL_FIELD, **_FL_BOUNDS, **reg("Voi.Props.FL.Montgomery")},
                "C10": {**_FL_CURVE, **reg("Voi.Props.FL.Sqrt")}, "C11": {**_FL_CURVE, **reg("Voi.Props.FL.Sqrt", "Voi.Props.FL.Ristretto"), **_FL_BOUNDS}}.items():
     PROPS[_k]["theorems"] = {**PROPS[_k]["theorems"], **_t}
     PROPS[_k]["gens"] = sorted(set(PROPS[_k].get("gens") or []) | {"go2ir", "flevel"})
